@@ -177,6 +177,9 @@ class Setup:
             self.axes = axes
         self.dtype = gen.pick(rng, ["float", "float", "int", "complex"])
         self.arr = gen.rand_values(rng, (*self.n, self.nv), self.dtype)
+        if self.dtype == "int" and rng.random() < 0.4:
+            # whole numbers that a float64 cannot hold: Q is an exact (integer) matrix
+            self.arr = self.arr + gen.pick(rng, [2**53 + 1, -(2**60) - 1])
         self.valid = gen.rand_valid(rng, self.n)
         self.unit = gen.pick(rng, [None, "A/m", "T"])
 
@@ -342,6 +345,8 @@ def check_rotated_field(ctx, su, f0, g, info):
         scale = np.abs(va) + np.abs(vb)
     got = gs["array"][sel]
     tol = 16 * EPS * scale[..., None]
+    if src.dtype.kind in "iub" and got.dtype.kind in "iub":
+        tol = 0  # integers in, integers out: exact
     bad = np.argwhere(~(np.abs(got - exp) <= tol))
     w = {}
     if len(bad):
